@@ -135,6 +135,10 @@ func classify(c tcase, resp string) string {
 			return "err:portrange"
 		case msg == fmt.Sprintf("%q must be a domain name or IP address with optional port", in):
 			return "err:host"
+		case msg == fmt.Sprintf("%q: only IPv6 addresses may be enclosed in brackets", in):
+			return "err:bracket"
+		case has(msg, fmt.Sprintf("%q: NGINX reads the host name \"unix\"", in)):
+			return "err:unix"
 		}
 	case "ip":
 		switch {
